@@ -1,38 +1,78 @@
-(* The field Q(sqrt 3) as pairs (a, b) = a + b*sqrt(3), a b : Q (reduced after every operation).
-   Used to EXECUTE the 2-point Gauss quadrature loops of the FE modules exactly
-   (pos = n*(siz/2)/np.sqrt(3)); element matrices come out with zero sqrt(3) part.
-   Definitions only. *)
-From Coq Require Import ZArith QArith List.
+(* The field F(sqrt 3) as records a + b*sqrt(3) over an executable base field F
+   (F = Q: stdlib rationals reduced after every operation;  F = bigQ: Bignums rationals on 63-bit machine
+   integers, ~15x faster under vm_compute).  Used to EXECUTE the 2-point Gauss quadrature loops of the FE
+   modules exactly (pos = n*(siz/2)/np.sqrt(3)); element matrices come out with zero sqrt(3) part.
+   Definitions only (evaluation inside the correspondence checks; no theorem mentions these types). *)
+From Coq Require Import ZArith QArith List Bool.
+From Bignums Require Import BigQ.
 From Pymoto Require Import Base.Num.
 Import ListNotations.
 
-Definition Qs3 : Type := (Q * Q)%type.
+(* ---- bigQ as a numeric type ---- *)
+#[global] Instance NumBQ : Num bigQ :=
+  {| nzero := 0%bigQ; none_ := 1%bigQ; nadd := BigQ.add_norm; nmul := BigQ.mul_norm; nsub := BigQ.sub_norm;
+     nopp := BigQ.opp; ndiv := BigQ.div_norm; nofZ := fun z => BigQ.Qz (BigZ.of_Z z) |}.
 
-Definition s3_of_Q (q : Q) : Qs3 := (Qred q, 0%Q).
-Definition s3_add (x y : Qs3) : Qs3 := (Qradd (fst x) (fst y), Qradd (snd x) (snd y)).
-Definition s3_sub (x y : Qs3) : Qs3 := (Qrsub (fst x) (fst y), Qrsub (snd x) (snd y)).
-Definition s3_opp (x : Qs3) : Qs3 := (Qopp (fst x), Qopp (snd x)).
-(* (a1 + b1 r)(a2 + b2 r) = a1 a2 + 3 b1 b2 + (a1 b2 + b1 a2) r *)
-Definition s3_mul (x y : Qs3) : Qs3 :=
-  (Qradd (Qrmul (fst x) (fst y)) (Qrmul 3 (Qrmul (snd x) (snd y))),
-   Qradd (Qrmul (fst x) (snd y)) (Qrmul (snd x) (fst y))).
-(* 1/(a + b r) = (a - b r)/(a^2 - 3 b^2) *)
-Definition s3_inv (x : Qs3) : Qs3 :=
-  let n := Qrsub (Qrmul (fst x) (fst x)) (Qrmul 3 (Qrmul (snd x) (snd x))) in
-  (Qrdiv (fst x) n, Qrdiv (Qopp (snd x)) n).
-Definition s3_div (x y : Qs3) : Qs3 := s3_mul x (s3_inv y).
+Definition bq (q : Q) : bigQ := BigQ.red (BigQ.of_Q q).
+Definition bql (l : list Q) : list bigQ := map bq l.
+Definition bqm (m : list (list Q)) : list (list bigQ) := map bql m.
+Definition qb (b : bigQ) : Q := BigQ.to_Q b.
+Definition qbl (l : list bigQ) : list Q := map qb l.
+Definition qbm (m : list (list bigQ)) : list (list Q) := map qbl m.
+Definition bq_leb (a b : bigQ) : bool := match BigQ.compare a b with Gt => false | _ => true end.
+Definition bq_abs (a : bigQ) : bigQ := if bq_leb 0%bigQ a then a else BigQ.opp a.
+(* |a - b| <= tol *)
+Definition bq_close (tol a b : bigQ) : bool := bq_leb (bq_abs (BigQ.sub a b)) tol.
+Definition bq_max_list (l : list bigQ) : bigQ :=
+  match l with [] => 0%bigQ | a :: t => fold_left (fun m v => if bq_leb m v then v else m) t a end.
 
-#[global] Instance NumQs3 : Num Qs3 :=
-  {| nzero := (0%Q, 0%Q); none_ := (1%Q, 0%Q); nadd := s3_add; nmul := s3_mul; nsub := s3_sub; nopp := s3_opp;
-     ndiv := s3_div; nofZ := fun z => (inject_Z z, 0%Q) |}.
+(* ---- zero test (short-cuts in the multiplication; mathematically irrelevant) ---- *)
+Class ZeroTest (F : Type) := { is0 : F -> bool }.
+#[global] Instance ZT_Q : ZeroTest Q := {| is0 := fun q => Qeq_bool q 0 |}.
+#[global] Instance ZT_BQ : ZeroTest bigQ := {| is0 := fun q => BigQ.eqb q 0%bigQ |}.
 
-(* the number np.sqrt(3) *)
-Definition s3_root : Qs3 := (0%Q, 1%Q).
+Record s3 (F : Type) : Type := S3 { s3a : F; s3b : F }.   (* s3a + s3b * sqrt 3 *)
+Arguments S3 {F} _ _.
+Arguments s3a {F} _.
+Arguments s3b {F} _.
 
-(* rational part / irrational part of vectors and matrices *)
-Definition s3_ratl (l : list Qs3) : list Q := map fst l.
-Definition s3_irrl (l : list Qs3) : list Q := map snd l.
-Definition s3_ratm (m : list (list Qs3)) : list (list Q) := map s3_ratl m.
-Definition s3_rational_l (l : list Qs3) : bool := forallb (fun x => Qeq_bool (snd x) 0) l.
-Definition s3_rational_m (m : list (list Qs3)) : bool := forallb s3_rational_l m.
-Definition s3_injl (l : list Q) : list Qs3 := map s3_of_Q l.
+Section S3.
+  Context {F : Type} `{Num F} `{ZeroTest F}.
+  Local Open Scope num_scope.
+  Definition three : F := none_ + none_ + none_.
+  Definition s3_of (a : F) : s3 F := S3 a nzero.
+  Definition s3_add (x y : s3 F) : s3 F := S3 (s3a x + s3a y) (s3b x + s3b y).
+  Definition s3_sub (x y : s3 F) : s3 F := S3 (s3a x - s3a y) (s3b x - s3b y).
+  Definition s3_opp (x : s3 F) : s3 F := S3 (- s3a x) (- s3b x).
+  (* (a1 + b1 r)(a2 + b2 r) = a1 a2 + 3 b1 b2 + (a1 b2 + b1 a2) r *)
+  Definition s3_mul (x y : s3 F) : s3 F :=
+    if is0 (s3b x) then
+      (if is0 (s3a x) then S3 nzero nzero
+       else if is0 (s3b y) then S3 (s3a x * s3a y) nzero
+       else S3 (s3a x * s3a y) (s3a x * s3b y))
+    else if is0 (s3b y) then
+      (if is0 (s3a y) then S3 nzero nzero else S3 (s3a x * s3a y) (s3b x * s3a y))
+    else S3 (s3a x * s3a y + three * (s3b x * s3b y)) (s3a x * s3b y + s3b x * s3a y).
+  (* 1/(a + b r) = (a - b r)/(a^2 - 3 b^2) *)
+  Definition s3_inv (x : s3 F) : s3 F :=
+    let n := s3a x * s3a x - three * (s3b x * s3b x) in
+    S3 (s3a x / n) ((- s3b x) / n).
+  Definition s3_div (x y : s3 F) : s3 F := s3_mul x (s3_inv y).
+
+  #[global] Instance NumS3 : Num (s3 F) :=
+    {| nzero := S3 nzero nzero; none_ := S3 none_ nzero; nadd := s3_add; nmul := s3_mul; nsub := s3_sub;
+       nopp := s3_opp; ndiv := s3_div; nofZ := fun z => S3 (nofZ z) nzero |}.
+
+  (* the number np.sqrt(3) *)
+  Definition s3_root : s3 F := S3 nzero none_.
+
+  (* rational part / test that the sqrt(3) part vanishes *)
+  Definition s3_ratl (l : list (s3 F)) : list F := map s3a l.
+  Definition s3_ratm (m : list (list (s3 F))) : list (list F) := map s3_ratl m.
+  Definition s3_rational_l (l : list (s3 F)) : bool := forallb (fun x => is0 (s3b x)) l.
+  Definition s3_rational_m (m : list (list (s3 F))) : bool := forallb s3_rational_l m.
+  Definition s3_injl (l : list F) : list (s3 F) := map s3_of l.
+End S3.
+
+Definition Qs3 : Type := s3 Q.
+Definition Bs3 : Type := s3 bigQ.
